@@ -642,4 +642,24 @@ theorem C17_d19_repaired :
     desiredIs ((readAll D2.toAnswers o1 T2).bind (collect D2.toAnswers o1)) [(str! "d", str! "1"), (str! "b", str! "1")] = true := by
   decide +kernel
 
+/-- **D72** (open finding): the hypothesis `Covered` is not a formality.  Answers as the real code gives them for the table
+`setupRequired(d)`, `setupRequired(c)`, `setupRequired(b)` when `d` takes `f` away again, `c` takes `e` away and `b` sets
+`e` — and with it `f` — up again: `f 1` is set up, but no listing mentions it (`Table.dependencies` removed it by name
+inside `d`'s sub-listing and does not expand `e` a second time).  `DepsSound` holds, `Covered` does not, and the exact block
+pins `d`, `e`, `c`, `b` only. -/
+def D3 : AnswerData where
+  sv := [(str! "a", str! "1"), (str! "b", str! "1"), (str! "c", str! "1"), (str! "d", str! "1"), (str! "e", str! "1"), (str! "f", str! "1")]
+  spv := [(str! "a", str! "1"), (str! "b", str! "1"), (str! "c", str! "1"), (str! "d", str! "1"), (str! "e", str! "1"), (str! "f", str! "1")]
+  deps := [((str! "d", str! "1"), some [⟨str! "e", str! "1", false⟩]), ((str! "c", str! "1"), some []),
+           ((str! "b", str! "1"), some [⟨str! "d", str! "1", false⟩, ⟨str! "e", str! "1", false⟩, ⟨str! "e", str! "1", false⟩])]
+def T3 : List Str := [str! "setupRequired(d)\n", str! "setupRequired(c)\n", str! "setupRequired(b)\n"]
+
+theorem C17_d72_covered_fails_witness :
+    (D3.depsSound && !D3.covered o1 T3 &&
+      okText (expandText D3.toAnswers o1 T3)
+        [str! "if (type == exact) {", str! "   setupRequired(d               -j 1)", str! "   setupRequired(e               -j 1)",
+         str! "   setupRequired(c               -j 1)", str! "   setupRequired(b               -j 1)", str! "} else {",
+         str! "   setupRequired(d 1 [>= 1])", str! "   setupRequired(c 1 [>= 1])", str! "   setupRequired(b 1 [>= 1])", str! "}"]) = true := by
+  decide +kernel
+
 end EupsModel.C17
